@@ -3,8 +3,10 @@
 Everything in this file that is *not* a translation of /repo code is an
 assumption and is reported as such (see MODELS_DOC, collected in evidence)."""
 import re
+import cxx2c
 from cxx2c import Translator, X, Ty, parse_type, fn_ret_type, deref, addr, BUILTIN, sanitize
 from astload import ExtractionBreak, repo_path
+import stdlib
 
 LIMITS = {
     # (type, member) -> C text
@@ -36,8 +38,14 @@ class Extractor(Translator):
     def __init__(self, ast, **kw):
         super().__init__(ast, **kw)
         self.assumed = {}   # model name -> description
-        self.exc_classes = {}
+        self.exc_classes = {}      # exception class canonical name -> tag number
         self.extern_decls = {}
+        self.stdlib = stdlib.StdLib(self)
+        self.exc_targets = []      # stack of ("goto", label) inside try blocks
+        self.label_n = 0
+        self.throws = {}           # function cname -> True if it contains a throw
+        cxx2c.TYPE_ALIAS_HOOKS[:] = [self.stdlib.alias]
+        cxx2c._tycache.clear()
 
     # ---------------------------------------------------------------- classification
     def is_external(self, fid):
@@ -133,6 +141,9 @@ class Extractor(Translator):
             r = h(self, fid, info, e, args, obj)
             if r is not None:
                 return r
+        r = self.stdlib.call(q, fid, info, e, args, obj)
+        if r is not None:
+            return r
         raise ExtractionBreak("function %s: call to external function '%s' [%s] has no model" % (self.cur.cname, q, info.get("type")))
 
     def request_callee(self, fid):
@@ -140,3 +151,191 @@ class Extractor(Translator):
             info = self.ast.finfo(fid)
             raise ExtractionBreak("function %s: reference to external function '%s' has no model" % (self.cur.cname, info.get("qname")))
         return self.request(fid)
+
+
+    # ---------------------------------------------------------------- std models
+    def model_record_fields(self, canon):
+        return self.stdlib.record(canon)
+
+    def model_ctor(self, ctor, cinfo, ptr, args, ce):
+        if not self.is_external(ctor):
+            return None
+        m = self.stdlib.ctor(ctor, cinfo, ptr, args, ce)
+        if m is None:
+            if "trivial" in cinfo:
+                return None
+            raise ExtractionBreak("function %s: constructor of external class '%s' [%s] has no model" % (self.cur.cname, cinfo.get("qname"), cinfo.get("type")))
+        return m
+
+    def model_dtor(self, did, ty):
+        if self.is_external(did):
+            m = self.stdlib.dtor(did, ty)
+            if m is None:
+                info = self.ast.finfo(did)
+                if "trivial" in info:
+                    return None
+                raise ExtractionBreak("function %s: destructor of external class '%s' has no model" % (self.cur.cname, ty.key()))
+            return m
+        return None
+
+    # ---------------------------------------------------------------- exceptions (DESIGN.md 3.2: throw -> flag)
+    def exc_tag(self, canon):
+        if canon not in self.exc_classes:
+            self.exc_classes[canon] = len(self.exc_classes) + 1
+        return "EXC_" + sanitize(canon)
+
+    def zero_value(self):
+        rt = self.cur.ret
+        if rt.kind == "builtin" and rt.name == "void":
+            return ""
+        if rt.kind in ("rec", "arr"):
+            return " (%s){0}" % self.ctype(rt)
+        return " 0"
+
+    def jump_text(self):
+        """C text leaving the current function / entering the handler when an exception is in flight"""
+        if self.exc_targets:
+            return "goto %s;" % self.exc_targets[-1]
+        d = "".join(self.prs(s, 0).strip() + " " for s in self.all_scope_dtors())
+        return "%sreturn%s;" % (d, self.zero_value())
+
+    def wrap_call(self, fid, call):
+        if call.k != "call":
+            return call
+        info = self.ast.finfo(fid)
+        if self.is_external(fid):
+            return call
+        fname = call.a[0]
+        return X("callx", call, fname, self.jump_text(), None, ty=call.ty)
+
+    def may_throw_fn(self, fname):
+        if fname in self.opts.get("stub_may_throw", ()):
+            return True
+        return self.may_throw.get(fname, False)
+
+    def compute_may_throw(self):
+        mt = {n: bool(self.throws.get(n)) for n in self.funcs}
+        for n in self.opts.get("stub_may_throw", ()):
+            mt[n] = True
+        # callers of throwing stubs / model contracts
+        for n, f in self.funcs.items():
+            if f is not None and any(c in self.opts.get("stub_may_throw", ()) for c in f.calls):
+                mt[n] = True
+        changed = True
+        while changed:
+            changed = False
+            for n, f in self.funcs.items():
+                if f is None or mt.get(n):
+                    continue
+                for c in f.calls:
+                    if mt.get(c):
+                        mt[n] = True
+                        changed = True
+                        break
+        self.may_throw = mt
+        return mt
+
+    may_throw = {}
+
+    def e_CXXThrowExpr(self, e):
+        inner = e.get("inner", [])
+        if not inner:
+            raise ExtractionBreak("function %s: rethrow" % self.cur.cname)
+        ety = self.ety(inner[0])
+        tag = self.exc_tag(ety.noref().name)
+        self.throws[self.cur.cname] = True
+        self.rule("throw->flag")
+        self.rule("dropped:exception-object")
+        return X("raw", "({ __verif_exc = %s; %s })" % (tag, self.jump_text()))
+
+    def s_CXXTryStmt(self, s):
+        inner = s["inner"]
+        body, handlers = inner[0], inner[1:]
+        self.label_n += 1
+        lab = "__catch_%d" % self.label_n
+        end = "__after_try_%d" % self.label_n
+        self.exc_targets.append(lab)
+        b = self.stmt(body)
+        self.exc_targets.pop()
+        out = list(b) + [X("goto", end), X("label", lab)]
+        self.rule("try/catch->flag test")
+        for h in handlers:
+            hin = h.get("inner", [])
+            decl = hin[0] if len(hin) == 2 else None
+            hbody = hin[-1]
+            if decl is not None and decl.get("kind") == "VarDecl" and decl.get("id") in self.ast.D:
+                cty = parse_type(self.ast.D[decl["id"]]["type"]).noref()
+                tag = self.exc_tag(cty.name)
+                cond = X("raw", "(__verif_exc == %s)" % tag)
+            else:
+                cond = X("raw", "(__verif_exc != 0)")
+            hb = [X("raw", "__verif_exc = 0;")] + self.stmt(hbody) + [X("goto", end)]
+            out.append(X("if", cond, hb, None))
+        # not handled here: propagate
+        out.append(X("raw", "if (__verif_exc) { %s }" % self.jump_text()))
+        out.append(X("label", end))
+        return out
+
+    # ---------------------------------------------------------------- virtual calls
+    def virtual_call(self, fid, e, objn, me, args):
+        """dispatch through an interface stub named by the unit (opts virtual_models: qualified name -> C function)"""
+        info = self.ast.finfo(fid)
+        q = info.get("qname", "")
+        stub = self.opts.get("virtual_models", {}).get(q)
+        if stub is None:
+            raise ExtractionBreak("function %s: virtual call to '%s' (no interface model)" % (self.cur.cname, q))
+        self.rule("virtual-call->interface-stub")
+        self.cur.calls[stub] = True
+        objp = self.rv(objn) if me.get("isArrow") else addr(self.lv(objn))
+        call = X("call", stub, [objp] + self.call_args(fid, args))
+        rets, _ = fn_ret_type(info["type"])
+        call.ty = self.lower(parse_type(rets))
+        if self.opts.get("virtual_may_throw", {}).get(q):
+            return X("callx", call, stub, self.jump_text(), None, ty=call.ty)
+        return call
+
+    # ---------------------------------------------------------------- new / delete
+    def e_CXXNewExpr(self, e):
+        info = self.ast.E[e["id"]]
+        T = parse_type(info["alloc"])
+        cn = self.ctype(T)
+        self.assume("operator new", "allocation never fails (no bad_alloc path); new T[n] is malloc(n*sizeof(T))")
+        inner = [c for c in e.get("inner", []) if "kind" in c]
+        if e.get("isArray"):
+            n = self.rv(inner[0])
+            if T.kind == "rec" and T.name in self.ast.Rname and "trivcopy" not in self.ast.R[self.ast.Rname[T.name]]:
+                raise ExtractionBreak("new[] of class type with constructors")
+            self.rule("new[]->malloc")
+            return X("cast", cn + " *", X("call", "verif_malloc", [X("bin", "*", n, X("sizeof", cn))]), ty=Ty("ptr", to=T))
+        if e.get("isPlacement"):
+            place = self.rv(inner[0])
+            init = inner[1] if len(inner) > 1 else None
+            self.rule("placement-new")
+            o = X("var", "__o", ty=Ty("ptr", to=T))
+            st = [X("decl", Ty("ptr", to=T), "__o", X("cast", cn + " *", place))]
+            if init is not None:
+                st += self.init_object(deref(o), T, init)
+            return X("sexpr", st, o, ty=Ty("ptr", to=T))
+        self.rule("new->malloc+ctor")
+        o = X("var", "__o", ty=Ty("ptr", to=T))
+        st = [X("decl", Ty("ptr", to=T), "__o", X("cast", cn + " *", X("call", "verif_malloc", [X("sizeof", cn)])))]
+        if inner:
+            st += self.init_object(deref(o), T, inner[-1])
+        return X("sexpr", st, o, ty=Ty("ptr", to=T))
+
+    def e_CXXDeleteExpr(self, e):
+        info = self.ast.E[e["id"]]
+        p = self.rv(e["inner"][0])
+        T = parse_type(info.get("destroyed", "void"))
+        if e.get("isArray"):
+            self.rule("delete[]->free")
+            return X("call", "free", [p])
+        d = info.get("dtor")
+        self.rule("delete->dtor+free")
+        if d and "trivial" not in self.ast.finfo(d):
+            fn = self.request_dtor(d, T)
+            if fn:
+                self.cur.calls[fn] = True
+                t = self.newtmp(Ty("ptr", to=T))
+                return X("comma", X("assign", "=", t, p), X("cond", t, X("comma", X("call", fn, [t]), X("comma", X("call", "free", [t]), X("lit", "0"))), X("lit", "0")))
+        return X("call", "free", [p])
